@@ -1,2 +1,733 @@
+// R1: reference implementations written for this harness from the public
+// specifications (FIPS 46-3, PHK md5crypt, Drepper SHA-crypt, NetBSD sha1crypt,
+// Solaris SunMD5, Provos/Mazieres bcrypt, Percival scrypt + "$7$" encoding,
+// R 50.1.113-2016), on top of OpenSSL / libgcrypt primitives only.  No code
+// shared with the tree under test.
 #pragma once
-#include "../core.hpp"
+#include <gcrypt.h>
+#include <openssl/evp.h>
+#include <openssl/hmac.h>
+#include <openssl/kdf.h>
+#include <openssl/provider.h>
+
+#include "../methods.hpp"
+#include "hamlet.inc"
+#include "pi_blowfish.inc"
+
+namespace vf {
+namespace ref {
+
+inline void init() {
+  static bool done = false;
+  if (done) return;
+  done = true;
+  OSSL_PROVIDER_load(nullptr, "legacy");
+  OSSL_PROVIDER_load(nullptr, "default");
+  gcry_check_version(nullptr);
+  gcry_control(GCRYCTL_DISABLE_SECMEM, 0);
+  gcry_control(GCRYCTL_INITIALIZATION_FINISHED, 0);
+}
+
+// ---- digests via OpenSSL EVP ----------------------------------------------------
+struct Md {
+  EVP_MD_CTX *c;
+  const EVP_MD *md;
+  explicit Md(const char *name) {
+    init();
+    md = EVP_MD_fetch(nullptr, name, nullptr);
+    c = EVP_MD_CTX_new();
+    if (md) EVP_DigestInit_ex(c, md, nullptr);
+  }
+  ~Md() {
+    EVP_MD_CTX_free(c);
+    EVP_MD_free((EVP_MD *)md);
+  }
+  bool ok() const { return md != nullptr; }
+  void reset() { EVP_DigestInit_ex(c, md, nullptr); }
+  void up(const void *p, size_t n) { EVP_DigestUpdate(c, p, n); }
+  void up(const Bytes &b) { up(b.data(), b.size()); }
+  Bytes fin() {
+    unsigned char out[EVP_MAX_MD_SIZE];
+    unsigned int n = 0;
+    EVP_DigestFinal_ex(c, out, &n);
+    return Bytes((char *)out, n);
+  }
+};
+inline Bytes digest(const char *name, const Bytes &m) {
+  Md d(name);
+  if (!d.ok()) return Bytes();
+  d.up(m);
+  return d.fin();
+}
+inline Bytes hmac(const char *name, const Bytes &key, const Bytes &msg) {
+  init();
+  const EVP_MD *md = EVP_get_digestbyname(name);
+  unsigned char out[EVP_MAX_MD_SIZE];
+  unsigned int n = 0;
+  HMAC(md, key.data(), (int)key.size(), (const unsigned char *)msg.data(), msg.size(), out, &n);
+  return Bytes((char *)out, n);
+}
+inline Bytes gcry_digest(int algo, const Bytes &m) {
+  init();
+  Bytes out(gcry_md_get_algo_dlen(algo), '\0');
+  gcry_md_hash_buffer(algo, &out[0], m.data(), m.size());
+  return out;
+}
+inline Bytes gcry_hmac(int algo, const Bytes &key, const Bytes &msg) {
+  init();
+  gcry_md_hd_t h;
+  if (gcry_md_open(&h, algo, GCRY_MD_FLAG_HMAC)) return Bytes();
+  gcry_md_setkey(h, key.data(), key.size());
+  gcry_md_write(h, msg.data(), msg.size());
+  Bytes out((char *)gcry_md_read(h, algo), gcry_md_get_algo_dlen(algo));
+  gcry_md_close(h);
+  return out;
+}
+
+// crypt-style base-64: n characters, least significant 6 bits first
+inline void to64(Bytes &o, uint32_t v, int n) {
+  while (n-- > 0) {
+    o.push_back(A64[v & 63]);
+    v >>= 6;
+  }
+}
+
+// ---- DES, bit level, from the FIPS 46-3 tables -------------------------------------
+namespace des {
+static const unsigned char IP[64] = {58, 50, 42, 34, 26, 18, 10, 2, 60, 52, 44, 36, 28, 20, 12, 4, 62, 54, 46, 38, 30, 22, 14, 6, 64, 56, 48, 40, 32, 24, 16, 8,
+                                     57, 49, 41, 33, 25, 17, 9, 1, 59, 51, 43, 35, 27, 19, 11, 3, 61, 53, 45, 37, 29, 21, 13, 5, 63, 55, 47, 39, 31, 23, 15, 7};
+static const unsigned char FP[64] = {40, 8, 48, 16, 56, 24, 64, 32, 39, 7, 47, 15, 55, 23, 63, 31, 38, 6, 46, 14, 54, 22, 62, 30, 37, 5, 45, 13, 53, 21, 61, 29,
+                                     36, 4, 44, 12, 52, 20, 60, 28, 35, 3, 43, 11, 51, 19, 59, 27, 34, 2, 42, 10, 50, 18, 58, 26, 33, 1, 41, 9, 49, 17, 57, 25};
+static const unsigned char E[48] = {32, 1, 2, 3, 4, 5, 4, 5, 6, 7, 8, 9, 8, 9, 10, 11, 12, 13, 12, 13, 14, 15, 16, 17,
+                                    16, 17, 18, 19, 20, 21, 20, 21, 22, 23, 24, 25, 24, 25, 26, 27, 28, 29, 28, 29, 30, 31, 32, 1};
+static const unsigned char P[32] = {16, 7, 20, 21, 29, 12, 28, 17, 1, 15, 23, 26, 5, 18, 31, 10, 2, 8, 24, 14, 32, 27, 3, 9, 19, 13, 30, 6, 22, 11, 4, 25};
+static const unsigned char PC1[56] = {57, 49, 41, 33, 25, 17, 9, 1, 58, 50, 42, 34, 26, 18, 10, 2, 59, 51, 43, 35, 27, 19, 11, 3, 60, 52, 44, 36,
+                                      63, 55, 47, 39, 31, 23, 15, 7, 62, 54, 46, 38, 30, 22, 14, 6, 61, 53, 45, 37, 29, 21, 13, 5, 28, 20, 12, 4};
+static const unsigned char PC2[48] = {14, 17, 11, 24, 1, 5, 3, 28, 15, 6, 21, 10, 23, 19, 12, 4, 26, 8, 16, 7, 27, 20, 13, 2,
+                                      41, 52, 31, 37, 47, 55, 30, 40, 51, 45, 33, 48, 44, 49, 39, 56, 34, 53, 46, 42, 50, 36, 29, 32};
+static const unsigned char SHIFTS[16] = {1, 1, 2, 2, 2, 2, 2, 2, 1, 2, 2, 2, 2, 2, 2, 1};
+static const unsigned char SBOX[8][64] = {
+  {14, 4, 13, 1, 2, 15, 11, 8, 3, 10, 6, 12, 5, 9, 0, 7, 0, 15, 7, 4, 14, 2, 13, 1, 10, 6, 12, 11, 9, 5, 3, 8,
+   4, 1, 14, 8, 13, 6, 2, 11, 15, 12, 9, 7, 3, 10, 5, 0, 15, 12, 8, 2, 4, 9, 1, 7, 5, 11, 3, 14, 10, 0, 6, 13},
+  {15, 1, 8, 14, 6, 11, 3, 4, 9, 7, 2, 13, 12, 0, 5, 10, 3, 13, 4, 7, 15, 2, 8, 14, 12, 0, 1, 10, 6, 9, 11, 5,
+   0, 14, 7, 11, 10, 4, 13, 1, 5, 8, 12, 6, 9, 3, 2, 15, 13, 8, 10, 1, 3, 15, 4, 2, 11, 6, 7, 12, 0, 5, 14, 9},
+  {10, 0, 9, 14, 6, 3, 15, 5, 1, 13, 12, 7, 11, 4, 2, 8, 13, 7, 0, 9, 3, 4, 6, 10, 2, 8, 5, 14, 12, 11, 15, 1,
+   13, 6, 4, 9, 8, 15, 3, 0, 11, 1, 2, 12, 5, 10, 14, 7, 1, 10, 13, 0, 6, 9, 8, 7, 4, 15, 14, 3, 11, 5, 2, 12},
+  {7, 13, 14, 3, 0, 6, 9, 10, 1, 2, 8, 5, 11, 12, 4, 15, 13, 8, 11, 5, 6, 15, 0, 3, 4, 7, 2, 12, 1, 10, 14, 9,
+   10, 6, 9, 0, 12, 11, 7, 13, 15, 1, 3, 14, 5, 2, 8, 4, 3, 15, 0, 6, 10, 1, 13, 8, 9, 4, 5, 11, 12, 7, 2, 14},
+  {2, 12, 4, 1, 7, 10, 11, 6, 8, 5, 3, 15, 13, 0, 14, 9, 14, 11, 2, 12, 4, 7, 13, 1, 5, 0, 15, 10, 3, 9, 8, 6,
+   4, 2, 1, 11, 10, 13, 7, 8, 15, 9, 12, 5, 6, 3, 0, 14, 11, 8, 12, 7, 1, 14, 2, 13, 6, 15, 0, 9, 10, 4, 5, 3},
+  {12, 1, 10, 15, 9, 2, 6, 8, 0, 13, 3, 4, 14, 7, 5, 11, 10, 15, 4, 2, 7, 12, 9, 5, 6, 1, 13, 14, 0, 11, 3, 8,
+   9, 14, 15, 5, 2, 8, 12, 3, 7, 0, 4, 10, 1, 13, 11, 6, 4, 3, 2, 12, 9, 5, 15, 10, 11, 14, 1, 7, 6, 0, 8, 13},
+  {4, 11, 2, 14, 15, 0, 8, 13, 3, 12, 9, 7, 5, 10, 6, 1, 13, 0, 11, 7, 4, 9, 1, 10, 14, 3, 5, 12, 2, 15, 8, 6,
+   1, 4, 11, 13, 12, 3, 7, 14, 10, 15, 6, 8, 0, 5, 9, 2, 6, 11, 13, 8, 1, 4, 10, 7, 9, 5, 0, 15, 14, 2, 3, 12},
+  {13, 2, 8, 4, 6, 15, 11, 1, 10, 9, 3, 14, 5, 0, 12, 7, 1, 15, 13, 8, 10, 3, 7, 4, 12, 5, 6, 11, 0, 14, 9, 2,
+   7, 11, 4, 1, 9, 12, 14, 2, 0, 6, 10, 13, 15, 3, 5, 8, 2, 1, 14, 7, 4, 10, 8, 13, 15, 12, 9, 0, 3, 5, 6, 11}};
+
+typedef unsigned char Bit;
+struct Sched {
+  Bit k[16][48];
+};
+inline void bytes_to_bits(const unsigned char *in, Bit *out, int nbytes) {
+  for (int i = 0; i < nbytes; i++)
+    for (int b = 0; b < 8; b++) out[i * 8 + b] = (in[i] >> (7 - b)) & 1;
+}
+inline void bits_to_bytes(const Bit *in, unsigned char *out, int nbytes) {
+  for (int i = 0; i < nbytes; i++) {
+    unsigned char v = 0;
+    for (int b = 0; b < 8; b++) v = (unsigned char)((v << 1) | in[i * 8 + b]);
+    out[i] = v;
+  }
+}
+inline void key_schedule(const Bit key[64], Sched &s) {
+  Bit cd[56];
+  for (int i = 0; i < 56; i++) cd[i] = key[PC1[i] - 1];
+  for (int r = 0; r < 16; r++) {
+    for (int sh = 0; sh < SHIFTS[r]; sh++) {
+      Bit c0 = cd[0], d0 = cd[28];
+      for (int i = 0; i < 27; i++) {
+        cd[i] = cd[i + 1];
+        cd[28 + i] = cd[28 + i + 1];
+      }
+      cd[27] = c0;
+      cd[55] = d0;
+    }
+    for (int i = 0; i < 48; i++) s.k[r][i] = cd[PC2[i] - 1];
+  }
+}
+// One full DES operation on 64 bits with the crypt(3) salt perturbation of the
+// E-box output: salt bit i set => outputs i and i+24 of E are exchanged.
+inline void block(const Sched &s, uint32_t salt, const Bit in[64], Bit out[64], bool decrypt) {
+  Bit lr[64];
+  for (int i = 0; i < 64; i++) lr[i] = in[IP[i] - 1];
+  Bit *L = lr, *R = lr + 32;
+  for (int r = 0; r < 16; r++) {
+    const Bit *k = s.k[decrypt ? 15 - r : r];
+    Bit e[48];
+    for (int i = 0; i < 48; i++) e[i] = R[E[i] - 1];
+    for (int i = 0; i < 24; i++)
+      if ((salt >> i) & 1) {
+        Bit t = e[i];
+        e[i] = e[i + 24];
+        e[i + 24] = t;
+      }
+    for (int i = 0; i < 48; i++) e[i] ^= k[i];
+    Bit sb[32];
+    for (int b = 0; b < 8; b++) {
+      const Bit *x = e + 6 * b;
+      int row = (x[0] << 1) | x[5];
+      int col = (x[1] << 3) | (x[2] << 2) | (x[3] << 1) | x[4];
+      int v = SBOX[b][row * 16 + col];
+      for (int j = 0; j < 4; j++) sb[4 * b + j] = (v >> (3 - j)) & 1;
+    }
+    Bit nr[32];
+    for (int i = 0; i < 32; i++) nr[i] = L[i] ^ sb[P[i] - 1];
+    for (int i = 0; i < 32; i++) {
+      L[i] = R[i];
+      R[i] = nr[i];
+    }
+  }
+  Bit pre[64];
+  for (int i = 0; i < 32; i++) {
+    pre[i] = R[i];
+    pre[32 + i] = L[i];
+  }
+  for (int i = 0; i < 64; i++) out[i] = pre[FP[i] - 1];
+}
+// bytes interface: key 8 bytes, data 8 bytes; applied `count` times
+inline void crypt_bytes(const unsigned char key[8], uint32_t salt, uint32_t count, const unsigned char in[8], unsigned char out[8], bool decrypt = false) {
+  Bit kb[64], d[64], o[64];
+  bytes_to_bits(key, kb, 8);
+  Sched s;
+  key_schedule(kb, s);
+  bytes_to_bits(in, d, 8);
+  if (count == 0) count = 1;
+  for (uint32_t i = 0; i < count; i++) {
+    block(s, salt, d, o, decrypt);
+    memcpy(d, o, 64);
+  }
+  bits_to_bytes(d, out, 8);
+}
+// 64 output bits as 11 base-64 characters, most significant bits first
+inline Bytes encode11(const unsigned char c[8]) {
+  Bit b[66];
+  bytes_to_bits(c, b, 8);
+  b[64] = b[65] = 0;
+  Bytes o;
+  for (int i = 0; i < 11; i++) {
+    int v = 0;
+    for (int j = 0; j < 6; j++) v = (v << 1) | b[6 * i + j];
+    o.push_back(A64[v]);
+  }
+  return o;
+}
+inline void key_from_phrase(const Bytes &p, size_t off, unsigned char key[8]) {
+  for (int i = 0; i < 8; i++) key[i] = off + i < p.size() ? (unsigned char)((unsigned char)p[off + i] << 1) : 0;
+}
+}  // namespace des
+
+struct Res {
+  bool ok = false;  // reference produced a value
+  Bytes h;
+};
+
+inline Res descrypt(const Bytes &P, const Bytes &S) {
+  Res r;
+  if (S.size() < 2 || a64val((unsigned char)S[0]) < 0 || a64val((unsigned char)S[1]) < 0) return r;
+  uint32_t salt = (uint32_t)a64val((unsigned char)S[0]) | ((uint32_t)a64val((unsigned char)S[1]) << 6);
+  unsigned char key[8], zero[8] = {0}, out[8];
+  des::key_from_phrase(P, 0, key);
+  des::crypt_bytes(key, salt, 25, zero, out);
+  r.h = S.substr(0, 2) + des::encode11(out);
+  r.ok = true;
+  return r;
+}
+inline Res bigcrypt(const Bytes &P, const Bytes &S) {
+  Res r;
+  if (S.size() < 2 || a64val((unsigned char)S[0]) < 0 || a64val((unsigned char)S[1]) < 0) return r;
+  uint32_t salt = (uint32_t)a64val((unsigned char)S[0]) | ((uint32_t)a64val((unsigned char)S[1]) << 6);
+  size_t nseg = (P.size() + 7) / 8;
+  if (nseg < 1) nseg = 1;
+  if (nseg > 16) nseg = 16;
+  r.h = S.substr(0, 2);
+  for (size_t seg = 0; seg < nseg; seg++) {
+    unsigned char key[8], zero[8] = {0}, out[8];
+    des::key_from_phrase(P, 8 * seg, key);
+    des::crypt_bytes(key, salt, 25, zero, out);
+    Bytes d = des::encode11(out);
+    r.h += d;
+    salt = (uint32_t)a64val((unsigned char)d[0]) | ((uint32_t)a64val((unsigned char)d[1]) << 6);
+  }
+  r.ok = true;
+  return r;
+}
+// the single DES key bsdicrypt folds a phrase into
+inline void bsdi_fold_key(const Bytes &P, unsigned char key[8]) {
+  unsigned char prev[8] = {0};
+  size_t off = 0;
+  for (;;) {
+    unsigned char blk[8];
+    des::key_from_phrase(P, off, blk);
+    for (int i = 0; i < 8; i++) key[i] = prev[i] ^ blk[i];
+    off += 8;
+    if (off >= P.size()) break;
+    des::crypt_bytes(key, 0, 1, key, prev);
+  }
+}
+// FIPS 74 weak keys (parity bits ignored): all 16 round keys equal, so E_k is an involution
+inline bool des_weak_key(const unsigned char key[8]) {
+  static const unsigned char W[4][8] = {{0x00, 0x00, 0x00, 0x00, 0x00, 0x00, 0x00, 0x00}, {0xfe, 0xfe, 0xfe, 0xfe, 0xfe, 0xfe, 0xfe, 0xfe},
+                                        {0x1e, 0x1e, 0x1e, 0x1e, 0x0e, 0x0e, 0x0e, 0x0e}, {0xe0, 0xe0, 0xe0, 0xe0, 0xf0, 0xf0, 0xf0, 0xf0}};
+  for (auto &w : W) {
+    bool eq = true;
+    for (int i = 0; i < 8; i++)
+      if ((key[i] & 0xfe) != w[i]) eq = false;
+    if (eq) return true;
+  }
+  return false;
+}
+inline Res bsdicrypt(const Bytes &P, const Bytes &S) {
+  Res r;
+  if (S.size() < 9 || S[0] != '_') return r;
+  uint32_t count = 0, salt = 0;
+  for (int i = 0; i < 4; i++) {
+    int a = a64val((unsigned char)S[1 + i]), b = a64val((unsigned char)S[5 + i]);
+    if (a < 0 || b < 0) return r;
+    count |= (uint32_t)a << (6 * i);
+    salt |= (uint32_t)b << (6 * i);
+  }
+  // fold the phrase into one key: K = block0; K = E_K(K) xor next block ...
+  unsigned char key[8], prev[8] = {0};
+  size_t off = 0;
+  for (;;) {
+    unsigned char blk[8];
+    des::key_from_phrase(P, off, blk);
+    for (int i = 0; i < 8; i++) key[i] = prev[i] ^ blk[i];
+    off += 8;
+    if (off >= P.size()) break;
+    des::crypt_bytes(key, 0, 1, key, prev);
+  }
+  unsigned char zero[8] = {0}, out[8];
+  des::crypt_bytes(key, salt, count, zero, out);
+  r.h = S.substr(0, 9) + des::encode11(out);
+  r.ok = true;
+  return r;
+}
+
+// ---- md5crypt (Poul-Henning Kamp) --------------------------------------------------
+inline Bytes salt_field(const Bytes &S, size_t pos, size_t maxlen) {
+  size_t e = S.find('$', pos);
+  if (e == Bytes::npos) e = S.size();
+  size_t n = e - pos;
+  if (n > maxlen) n = maxlen;
+  return S.substr(pos, n);
+}
+inline Res md5crypt(const Bytes &P, const Bytes &S) {
+  Res r;
+  if (!starts(S, "$1$")) return r;
+  Bytes salt = salt_field(S, 3, 8);
+  Md alt("MD5");
+  alt.up(P); alt.up(salt); alt.up(P);
+  Bytes a = alt.fin();
+  Md c("MD5");
+  c.up(P); c.up("$1$", 3); c.up(salt);
+  for (size_t pl = P.size(); pl > 0; pl = pl > 16 ? pl - 16 : 0) c.up(a.data(), pl > 16 ? 16 : pl);
+  for (size_t i = P.size(); i; i >>= 1) {
+    if (i & 1) c.up("\0", 1);
+    else c.up(P.data(), 1);
+  }
+  Bytes f = c.fin();
+  for (int i = 0; i < 1000; i++) {
+    Md d("MD5");
+    if (i & 1) d.up(P); else d.up(f);
+    if (i % 3) d.up(salt);
+    if (i % 7) d.up(P);
+    if (i & 1) d.up(f); else d.up(P);
+    f = d.fin();
+  }
+  auto u = [&](int i) { return (uint32_t)(unsigned char)f[i]; };
+  Bytes o = "$1$" + salt + "$";
+  to64(o, (u(0) << 16) | (u(6) << 8) | u(12), 4);
+  to64(o, (u(1) << 16) | (u(7) << 8) | u(13), 4);
+  to64(o, (u(2) << 16) | (u(8) << 8) | u(14), 4);
+  to64(o, (u(3) << 16) | (u(9) << 8) | u(15), 4);
+  to64(o, (u(4) << 16) | (u(10) << 8) | u(5), 4);
+  to64(o, u(11), 2);
+  r.h = o;
+  r.ok = true;
+  return r;
+}
+
+// ---- SHA-crypt (Drepper) ------------------------------------------------------------
+inline Res shacrypt(const Bytes &P, const Bytes &S, bool is512) {
+  Res r;
+  const char *tag = is512 ? "$6$" : "$5$";
+  const char *mdn = is512 ? "SHA512" : "SHA256";
+  size_t hs = is512 ? 64 : 32;
+  if (!starts(S, tag)) return r;
+  size_t pos = 3;
+  unsigned long long rounds = 5000;
+  bool custom = false;
+  if (S.compare(pos, 7, "rounds=") == 0) {
+    size_t q = pos + 7, e = q;
+    unsigned long long v = 0;
+    while (e < S.size() && S[e] >= '0' && S[e] <= '9' && e - q < 12) {
+      v = v * 10 + (unsigned)(S[e] - '0');
+      e++;
+    }
+    // this implementation family accepts only 1000..999999999 without leading zero
+    if (e == q || S[q] == '0' || e >= S.size() || S[e] != '$' || v < 1000 || v > 999999999ULL) return r;
+    rounds = v;
+    custom = true;
+    pos = e + 1;
+  }
+  Bytes salt = salt_field(S, pos, 16);
+  Md b(mdn);
+  b.up(P); b.up(salt); b.up(P);
+  Bytes B = b.fin();
+  Md a(mdn);
+  a.up(P); a.up(salt);
+  size_t cnt;
+  for (cnt = P.size(); cnt > hs; cnt -= hs) a.up(B);
+  a.up(B.data(), cnt);
+  for (cnt = P.size(); cnt > 0; cnt >>= 1) {
+    if (cnt & 1) a.up(B); else a.up(P);
+  }
+  Bytes A = a.fin();
+  Md dp(mdn);
+  for (size_t i = 0; i < P.size(); i++) dp.up(P);
+  Bytes DP = dp.fin();
+  Bytes Pb;
+  while (Pb.size() < P.size()) Pb += DP;
+  Pb.resize(P.size());
+  Md ds(mdn);
+  for (unsigned i = 0; i < 16u + (unsigned char)A[0]; i++) ds.up(salt);
+  Bytes DS = ds.fin();
+  Bytes Sb;
+  while (Sb.size() < salt.size()) Sb += DS;
+  Sb.resize(salt.size());
+  Bytes C = A;
+  for (unsigned long long i = 0; i < rounds; i++) {
+    Md c(mdn);
+    if (i & 1) c.up(Pb); else c.up(C);
+    if (i % 3) c.up(Sb);
+    if (i % 7) c.up(Pb);
+    if (i & 1) c.up(C); else c.up(Pb);
+    C = c.fin();
+  }
+  auto u = [&](int i) { return (uint32_t)(unsigned char)C[i]; };
+  Bytes o = tag;
+  if (custom) o += "rounds=" + std::to_string(rounds) + "$";
+  o += salt + "$";
+  if (!is512) {
+    static const int T[10][3] = {{0, 10, 20}, {21, 1, 11}, {12, 22, 2}, {3, 13, 23}, {24, 4, 14}, {15, 25, 5}, {6, 16, 26}, {27, 7, 17}, {18, 28, 8}, {9, 19, 29}};
+    for (auto &t : T) to64(o, (u(t[0]) << 16) | (u(t[1]) << 8) | u(t[2]), 4);
+    to64(o, (u(31) << 8) | u(30), 3);
+  } else {
+    static const int T[21][3] = {{0, 21, 42}, {22, 43, 1}, {44, 2, 23}, {3, 24, 45}, {25, 46, 4}, {47, 5, 26}, {6, 27, 48}, {28, 49, 7}, {50, 8, 29}, {9, 30, 51}, {31, 52, 10},
+                                 {53, 11, 32}, {12, 33, 54}, {34, 55, 13}, {56, 14, 35}, {15, 36, 57}, {37, 58, 16}, {59, 17, 38}, {18, 39, 60}, {40, 61, 19}, {62, 20, 41}};
+    for (auto &t : T) to64(o, (u(t[0]) << 16) | (u(t[1]) << 8) | u(t[2]), 4);
+    to64(o, u(63), 2);
+  }
+  r.h = o;
+  r.ok = true;
+  return r;
+}
+
+// ---- SunMD5 (Alec Muffett), structured like the Solaris original -------------------
+inline int md5bit(const unsigned char *d, unsigned n) { return (d[(n % 128) / 8] >> (n % 8)) & 1; }
+inline Res sunmd5(const Bytes &P, const Bytes &S) {
+  Res r;
+  if (!starts(S, "$md5") || S.size() < 5 || (S[4] != '$' && S[4] != ',')) return r;
+  size_t pos = 5;
+  unsigned long long extra = 0;
+  if (S.compare(pos, 7, "rounds=") == 0) {
+    size_t q = pos + 7, e = q;
+    while (e < S.size() && S[e] >= '0' && S[e] <= '9' && e - q < 11) {
+      extra = extra * 10 + (unsigned)(S[e] - '0');
+      e++;
+    }
+    if (e == q || S[q] == '0' || e >= S.size() || S[e] != '$' || extra > 0xffffffffULL - 4096) return r;  // would wrap: not a reference case
+    pos = e + 1;
+  }
+  size_t e = pos;
+  while (e < S.size() && is_a64((unsigned char)S[e])) e++;
+  if (e < S.size() && S[e] != '$') return r;
+  // a "$" directly followed by "$" or the end belongs to the salt
+  if (e < S.size() && S[e] == '$' && (e + 1 == S.size() || S[e + 1] == '$')) e++;
+  Bytes prefix = S.substr(0, e);
+  unsigned long long rounds = 4096 + extra;
+  Md m("MD5");
+  m.up(P); m.up(prefix);
+  Bytes dgb = m.fin();
+  unsigned char dg[16];
+  memcpy(dg, dgb.data(), 16);
+  for (unsigned long long round = 0; round < rounds; round++) {
+    Md c("MD5");
+    c.up(dg, 16);
+    unsigned shift_4[16], shift_7[16], ind4[16], ind7[16];
+    for (int i = 0; i < 16; i++) {
+      int j = (i + 3) % 16;
+      shift_4[i] = dg[j] % 5;
+      shift_7[i] = (dg[j] >> (dg[i] % 8)) & 1;
+    }
+    unsigned shift_a = (unsigned)md5bit(dg, (unsigned)round), shift_b = (unsigned)md5bit(dg, (unsigned)round + 64);
+    for (int i = 0; i < 16; i++) ind4[i] = (dg[i] >> shift_4[i]) & 0x0f;
+    for (int i = 0; i < 16; i++) ind7[i] = (dg[ind4[i]] >> shift_7[i]) & 0x7f;
+    unsigned ia = 0, ib = 0;
+    for (int i = 0; i < 8; i++) {
+      ia |= (unsigned)md5bit(dg, ind7[i]) << i;
+      ib |= (unsigned)md5bit(dg, ind7[i + 8]) << i;
+    }
+    ia = (ia >> shift_a) & 0x7f;
+    ib = (ib >> shift_b) & 0x7f;
+    if (md5bit(dg, ia) ^ md5bit(dg, ib)) c.up(HAMLET, sizeof HAMLET);
+    std::string num = std::to_string(round);
+    c.up(num);
+    Bytes f = c.fin();
+    memcpy(dg, f.data(), 16);
+  }
+  auto u = [&](int i) { return (uint32_t)dg[i]; };
+  Bytes o = prefix + "$";
+  to64(o, (u(0) << 16) | (u(6) << 8) | u(12), 4);
+  to64(o, (u(1) << 16) | (u(7) << 8) | u(13), 4);
+  to64(o, (u(2) << 16) | (u(8) << 8) | u(14), 4);
+  to64(o, (u(3) << 16) | (u(9) << 8) | u(15), 4);
+  to64(o, (u(4) << 16) | (u(10) << 8) | u(5), 4);
+  to64(o, u(11), 2);
+  r.h = o;
+  r.ok = true;
+  return r;
+}
+
+// ---- sha1crypt (NetBSD): iterated HMAC-SHA1 -----------------------------------------
+inline Res sha1crypt(const Bytes &P, const Bytes &S) {
+  Res r;
+  if (!starts(S, "$sha1$")) return r;
+  size_t q = 6, e = q;
+  if (e < S.size() && S[e] == '+') e++;  // strtoul-compatible spelling
+  size_t ds = e;
+  unsigned long long it = 0;
+  while (e < S.size() && S[e] >= '0' && S[e] <= '9' && e - ds < 18) {
+    it = it * 10 + (unsigned)(S[e] - '0');
+    e++;
+  }
+  if (e >= S.size() || S[e] != '$') return r;
+  if (e == ds && ds != q) return r;  // a lone '+' is not a number
+  size_t sp = e + 1, se = sp;
+  while (se < S.size() && is_a64((unsigned char)S[se])) se++;
+  if (se == sp || (se < S.size() && S[se] != '$')) return r;
+  Bytes salt = S.substr(sp, se - sp);
+  std::string its = std::to_string(it);
+  Bytes h = hmac("SHA1", P, salt + "$sha1$" + its);
+  for (unsigned long long i = 1; i < it; i++) h = hmac("SHA1", P, h);
+  auto u = [&](int i) { return (uint32_t)(unsigned char)h[i]; };
+  Bytes o = "$sha1$" + its + "$" + salt + "$";
+  for (int i = 0; i + 3 < 20; i += 3) to64(o, (u(i) << 16) | (u(i + 1) << 8) | u(i + 2), 4);
+  to64(o, (u(18) << 16) | (u(19) << 8) | u(0), 4);
+  r.h = o;
+  r.ok = true;
+  return r;
+}
+
+// ---- NT hash: MD4 over the UCS-2LE expansion of the (ISO 8859-1) phrase -----------------
+inline Res nthash(const Bytes &P, const Bytes &S) {
+  Res r;
+  if (!starts(S, "$3$")) return r;
+  Bytes u;
+  for (unsigned char c : P) {
+    u.push_back((char)c);
+    u.push_back('\0');
+  }
+  Bytes d = gcry_digest(GCRY_MD_MD4, u);
+  static const char *hx = "0123456789abcdef";
+  Bytes o = "$3$$";
+  for (unsigned char c : d) {
+    o.push_back(hx[c >> 4]);
+    o.push_back(hx[c & 15]);
+  }
+  r.h = o;
+  r.ok = true;
+  return r;
+}
+
+// ---- bcrypt (Provos & Mazieres), Blowfish state from the digits of pi --------------------
+struct BF {
+  uint32_t P[18], S[4][256];
+  void init() {
+    for (int i = 0; i < 18; i++) P[i] = PI_WORDS[i];
+    for (int b = 0; b < 4; b++)
+      for (int i = 0; i < 256; i++) S[b][i] = PI_WORDS[18 + 256 * b + i];
+  }
+  uint32_t F(uint32_t x) const { return ((S[0][x >> 24] + S[1][(x >> 16) & 255]) ^ S[2][(x >> 8) & 255]) + S[3][x & 255]; }
+  void enc(uint32_t &l, uint32_t &r) const {
+    uint32_t L = l, R = r;
+    for (int i = 0; i < 16; i += 2) {
+      L ^= P[i];
+      R ^= F(L);
+      R ^= P[i + 1];
+      L ^= F(R);
+    }
+    L ^= P[16];
+    R ^= P[17];
+    l = R;
+    r = L;
+  }
+  // key words: 18 words taken cyclically from the NUL-terminated key
+  void expand(const uint32_t kw[18], const uint32_t salt[4], bool use_salt) {
+    for (int i = 0; i < 18; i++) P[i] ^= kw[i];
+    uint32_t l = 0, r = 0;
+    int s = 0;
+    for (int i = 0; i < 18; i += 2) {
+      if (use_salt) {
+        l ^= salt[s & 3];
+        r ^= salt[(s + 1) & 3];
+        s += 2;
+      }
+      enc(l, r);
+      P[i] = l;
+      P[i + 1] = r;
+    }
+    for (int b = 0; b < 4; b++)
+      for (int i = 0; i < 256; i += 2) {
+        if (use_salt) {
+          l ^= salt[s & 3];
+          r ^= salt[(s + 1) & 3];
+          s += 2;
+        }
+        enc(l, r);
+        S[b][i] = l;
+        S[b][i + 1] = r;
+      }
+  }
+};
+inline bool bf_b64_decode(const Bytes &s, size_t pos, unsigned char *out, size_t n) {
+  // big-endian 6-bit groups
+  size_t o = 0;
+  uint32_t acc = 0;
+  int bits = 0;
+  while (o < n) {
+    if (pos >= s.size()) return false;
+    int v = bf64val((unsigned char)s[pos++]);
+    if (v < 0) return false;
+    acc = (acc << 6) | (uint32_t)v;
+    bits += 6;
+    if (bits >= 8) {
+      bits -= 8;
+      out[o++] = (unsigned char)((acc >> bits) & 0xff);
+    }
+  }
+  return true;
+}
+inline Bytes bf_b64_encode(const unsigned char *in, size_t n) {
+  Bytes o;
+  uint32_t acc = 0;
+  int bits = 0;
+  for (size_t i = 0; i < n; i++) {
+    acc = (acc << 8) | in[i];
+    bits += 8;
+    while (bits >= 6) {
+      bits -= 6;
+      o.push_back(BF64[(acc >> bits) & 63]);
+    }
+  }
+  if (bits) o.push_back(BF64[(acc << (6 - bits)) & 63]);
+  return o;
+}
+// variant: 'b','y' correct; 'a' correct (callers must not pass phrases that trigger the 2a safety); 'x' sign-extension bug
+inline Res bcrypt(const Bytes &P, const Bytes &S) {
+  Res r;
+  if (S.size() < 29 || S[0] != '$' || S[1] != '2' || !strchr("abxy", S[2]) || S[3] != '$' || S[6] != '$') return r;
+  if (S[4] < '0' || S[4] > '3' || S[5] < '0' || S[5] > '9') return r;
+  int cost = (S[4] - '0') * 10 + (S[5] - '0');
+  if (cost < 4 || cost > 31) return r;
+  unsigned char saltb[16];
+  if (!bf_b64_decode(S, 7, saltb, 16)) return r;
+  // the 22nd character must still be in the alphabet
+  if (bf64val((unsigned char)S[28]) < 0) return r;
+  uint32_t salt[4];
+  for (int i = 0; i < 4; i++) salt[i] = ((uint32_t)saltb[4 * i] << 24) | ((uint32_t)saltb[4 * i + 1] << 16) | ((uint32_t)saltb[4 * i + 2] << 8) | saltb[4 * i + 3];
+  bool bug = S[2] == 'x';
+  uint32_t kw[18];
+  size_t kl = P.size() + 1, ki = 0;  // key including its NUL
+  for (int i = 0; i < 18; i++) {
+    uint32_t w = 0;
+    for (int j = 0; j < 4; j++) {
+      unsigned char c = ki < P.size() ? (unsigned char)P[ki] : 0;
+      if (bug) w = (w << 8) | (uint32_t)(int32_t)(signed char)c;
+      else w = (w << 8) | c;
+      ki = (ki + 1) % kl;
+    }
+    kw[i] = w;
+  }
+  uint32_t zero[4] = {0, 0, 0, 0};
+  uint32_t sw[18];
+  for (int i = 0; i < 18; i++) sw[i] = salt[i & 3];
+  BF bf;
+  bf.init();
+  bf.expand(kw, salt, true);
+  uint64_t n = 1ULL << cost;
+  for (uint64_t i = 0; i < n; i++) {
+    bf.expand(kw, zero, false);
+    bf.expand(sw, zero, false);
+  }
+  uint32_t ct[6] = {0x4f727068, 0x65616e42, 0x65686f6c, 0x64657253, 0x63727944, 0x6f756274};  // "OrpheanBeholderScryDoubt"
+  for (int k = 0; k < 64; k++)
+    for (int i = 0; i < 6; i += 2) bf.enc(ct[i], ct[i + 1]);
+  unsigned char cb[24];
+  for (int i = 0; i < 6; i++) {
+    cb[4 * i] = (unsigned char)(ct[i] >> 24);
+    cb[4 * i + 1] = (unsigned char)(ct[i] >> 16);
+    cb[4 * i + 2] = (unsigned char)(ct[i] >> 8);
+    cb[4 * i + 3] = (unsigned char)ct[i];
+  }
+  r.h = S.substr(0, 7) + bf_b64_encode(saltb, 16) + bf_b64_encode(cb, 23);
+  r.ok = true;
+  return r;
+}
+inline bool bcrypt_2a_safe_for_ref(const Bytes &P) { return memchr(P.data(), 0xff, P.size()) == nullptr; }
+
+// ---- scrypt with the "$7$" encoding ------------------------------------------------------
+inline Res scrypt7(const Bytes &P, const Bytes &S) {
+  Res r;
+  init();
+  if (!starts(S, "$7$") || S.size() < 14) return r;
+  int nl = a64val((unsigned char)S[3]);
+  if (nl < 1) return r;
+  uint64_t rr = 0, pp = 0;
+  for (int i = 0; i < 5; i++) {
+    int a = a64val((unsigned char)S[4 + i]), b = a64val((unsigned char)S[9 + i]);
+    if (a < 0 || b < 0) return r;
+    rr |= (uint64_t)a << (6 * i);
+    pp |= (uint64_t)b << (6 * i);
+  }
+  size_t e = S.rfind('$');
+  Bytes salt = (e != Bytes::npos && e >= 14) ? S.substr(14, e - 14) : S.substr(14);
+  unsigned char dk[32];
+  if (nl > 24 || rr == 0 || pp == 0) return r;
+  if (EVP_PBE_scrypt(P.data(), P.size(), (const unsigned char *)salt.data(), salt.size(), 1ULL << nl, rr, pp, 1ULL << 30, dk, 32) != 1) return r;
+  r.h = S.substr(0, 14) + salt + "$" + b64le_encode(Bytes((char *)dk, 32));
+  r.ok = true;
+  return r;
+}
+
+// ---- gost-yescrypt outer layer (R 50.1.113-2016 HMAC over Streebog-256) --------------------
+// yres: the "$y$..." result for the corresponding yescrypt setting (from R2).
+inline Res gost_outer(const Bytes &P, const Bytes &gost_setting, const Bytes &yres) {
+  Res r;
+  size_t e = yres.rfind('$');
+  if (e == Bytes::npos) return r;
+  Bytes y;
+  if (!b64le_decode(yres.substr(e + 1), y) || y.size() != 32) return r;
+  size_t slen = e + 1;  // bytes of the caller's setting that are authenticated
+  if (gost_setting.size() < slen) return r;
+  Bytes hk = gcry_digest(GCRY_MD_STRIBOG256, P);
+  Bytes inner = gcry_hmac(GCRY_MD_STRIBOG256, hk, gost_setting.substr(0, slen));
+  Bytes outer = gcry_hmac(GCRY_MD_STRIBOG256, inner, y);
+  r.h = "$gy$" + yres.substr(3, e + 1 - 3) + b64le_encode(outer);
+  r.ok = true;
+  return r;
+}
+
+}  // namespace ref
+}  // namespace vf
